@@ -983,6 +983,81 @@ def check_sites(ctx, c):
                      {'clump_lengths': lens}, 'clump_within_limit')
 
 
+def nrt_route_cases(ctx):
+    """the non-real-time route of the use sites: what is handed to the interface must be in the score of that life,
+    every element exactly once -- with EQUAL elements, equal clumps and the same message sent twice among the inputs"""
+    rng = ctx.rng
+    same = [S('/n_set'), I(1000), S('amp'), Fl(0.5)]
+    n_over = MAX_UDP // (4 + enc_size(same)) + 220
+    big_equal = [list(same) for _ in range(n_over)]
+    distinct = [[S('/m%03d' % (j % 1000)), Y(bytes(1000 + j % 3)), I(j)] for j in range(70)]
+    later = ['bundle', Fl(1.0), [[S('/later'), I(1)]]]
+    cases = [
+        {'ops': [later, ['clumped', None, big_equal]], 'cls': 'nrt_equal_clumps_none'},
+        {'ops': [['clumped', Fl(0.2), big_equal], ['clumped', I(0), big_equal[:n_over // 2]]], 'cls': 'nrt_equal_clumps_latency'},
+        {'ops': [later, ['clumped', None, distinct], ['clumped', None, distinct]], 'cls': 'nrt_same_list_twice'},
+        {'ops': [['msg', [S('/n_run'), I(1001), I(1)]], ['msg', [S('/n_run'), I(1001), I(1)]], later, later,
+                 ['bundle', None, [list(same), list(same)]], ['bundle', None, [list(same), list(same)]], ['bundle', Fl(0.0), [list(same), list(same)]],
+                 ['ctx', [list(same), list(same), [S('/x')], list(same)]], ['ctx', [list(same), list(same), [S('/x')], list(same)]]], 'cls': 'nrt_duplicates'},
+    ]
+    pool = [list(same), [S('/x')], [S('/y'), I(0)], [S('/y'), Fl(0.0)], [S('/b'), Y(b'abc')], [Fl(0.5), [S('/n')]], [Fl(0.5), [S('/n')], [S('/n')]]]
+    for _ in range(ctx.n(6, 60)):
+        ops = []
+        for _ in range(rng.randint(2, 8)):
+            k = rng.random()
+            els = [rng.choice(pool) for _ in range(rng.randint(1, 4))]
+            if k < 0.3:
+                ops.append(['msg', rng.choice(pool[:5])])
+            elif k < 0.7:
+                ops.append(['bundle', rng.choice([None, None, I(0), Fl(0.0), Fl(0.5)]), els])
+            elif k < 0.85:
+                ops.append(['clumped', rng.choice([None, Fl(0.2)]), els])
+            else:
+                ops.append(['ctx', [e for e in els if isinstance(e[0], dict) and 's' in e[0]] or [[S('/x')]]])
+            if rng.random() < 0.4:
+                ops.append(ops[-1])                 # the same thing again
+        cases.append({'ops': ops, 'cls': 'nrt_random_duplicates'})
+    for k in cases:
+        k['kind'] = 'nrt_route'
+    return cases
+
+
+def check_nrt_route(ctx, c):
+    from collections import Counter
+    cases = nrt_route_cases(ctx)
+    out = ctx.impl('c06_osc', {'cases': cases}, timeout=900)['out']
+    for k, o in zip(cases, out):
+        c.evaluations += 1
+        c.count('site:' + k['cls'])
+        if o.get('skipped'):
+            continue
+        ops = [[op[0]] + ([show(op[1])] if op[0] in ('msg',) else ([show(op[1]), '%d elements like %s' % (len(op[2]), show(op[2][0]))] if op[0] != 'ctx'
+                                                                  else ['%d messages like %s' % (len(op[1]), show(op[1][0]))])) for op in k['ops']]
+        rp = {'site': 'nrt_route', 'ops': ops, 'command': './check C06 --replay <this file>'}
+        if 'crash' in o or 'error' in o:
+            c.failures.append(Failure('correspondence', 'the non-real-time route raised %s for %s' % (o.get('crash') or o.get('error'), ops),
+                                      signature='C06:site_error', found_input=True, replay=rp))
+            continue
+        handed = Counter(tuple(h['elems']) for h in o['handed'])
+        entries = Counter(tuple(e[1]) for e in o['entries'])
+        for m in o['marker_shas']:              # the root node and the closing marker the score adds itself
+            entries[(m,)] -= 1
+        entries = +entries
+        n_handed = sum(len(h['elems']) for h in o['handed'])
+        n_score = sum(len(e[1]) for e in o['entries']) - 2
+        c.nontriv(('nrt', k['cls'], n_handed))
+        if not all(e[2] for e in o['entries']):
+            c.failures.append(Failure('correspondence', 'the raw score is not a sequence of size-prefixed bundles of size-prefixed elements: %s' % ops,
+                                      signature='C06:nrt_raw_score', found_input=True, replay=rp))
+        if handed != entries or sorted(o['list_entries']) != sorted([h['n'] for h in o['handed']] + [1, 1]):
+            c.failures.append(Failure('correspondence', 'non-real-time: %d elements in %d bundles were handed to the interface, the score of this life carries %d in %d '
+                                      '(every element must be carried exactly once): %s'
+                                      % (n_handed, len(o['handed']), n_score, len(o['entries']) - 2, ops),
+                                      signature='C06:nrt_elements_lost', found_input=True, theorem='clump_partition',
+                                      replay=dict(rp, handed_bundles=len(o['handed']), handed_elements=n_handed, score_bundles=len(o['entries']) - 2,
+                                                  score_elements=n_score, list_form_bundles=len(o['list_entries']) - 2)))
+
+
 # ---------------------------------------------------------------------------
 # correspondence
 
@@ -1199,6 +1274,7 @@ def correspond(ctx):
                 c.failures.append(Failure('correspondence', '_strpad4(%d): model and implementation disagree' % ref, replay={'check': name, 'n': ref}))
     try:
         check_sites(ctx, c)
+        check_nrt_route(ctx, c)
     except fw.ImplError:
         raise
     except Exception as e:          # the monitor itself must not hide a finding behind a traceback
@@ -1212,7 +1288,8 @@ def correspond(ctx):
               '_clump_bundle against calc_pkt/clump_bundle; the use sites SynthDef.send/add/_do_send, send_clumped_bundles, sync(elements) and '
               'BundleNetAddr are driven with a logging transport: every datagram really sent is <= 65504, decodes (independent reader) to the '
               'arguments of the call, prediction >= real for that very message, all elements carried once in order, and the /d_recv-vs-/d_load '
-              'choice and the clump plan equal the model\'s. non-trivial = the build succeeded / the parse succeeded / more than one clump')
+              'choice and the clump plan equal the model\'s; the same use sites through the real non-real-time interface: every bundle and element handed '
+              'over (equal elements, equal clumps, the same message twice included) is in the finished score of that life exactly once. non-trivial = the build succeeded / the parse succeeded / more than one clump')
     sample = [(k, o) for k, o in zip(allc, out) if 'build' in o][:400:70]
     c.samples = [{'input': show(k['v']), 'build': o['build'][:1] + o['build'][2:], 'predicted': o['pred']} for k, o in sample]
     ctx.c06 = {'cases': allc, 'out': out}
